@@ -3,3 +3,4 @@ pub mod vars;
 pub mod arith;
 pub mod fnm;
 pub mod optparse;
+pub mod expand;
